@@ -22,7 +22,7 @@ SPEC = dict(
                  "a traceback exit counts as 'exits non-zero'; what is asserted is that nothing changed"],
     required=["fault_runs", "faults_at_later_write_position", "fault:pattern", "fault:file-removed", "fault:version",
               "fault:version:auto-increment-rejected",
-              "engine:v2", "engine:v1", "commit_on_runs", "dry_reported_error", "fault:already-new"],
+              "engine:v2", "engine:v1", "commit_on_runs", "dry_reported_error", "fault:already-new", "fault:shadowed"],
     anchors=[("v2rewrite", "rewrite_files"), ("v1rewrite", "rewrite_files"), ("rewrite", "iter_path_patterns_items"),
              ("cli", "_update"), ("cli", "_try_update")],
     exhaustive={"quick": False, "thorough": False},
@@ -90,8 +90,14 @@ def run_case(ctx, case):
         auto = auto_rejected_args(R, q, tdy) if not q.legacy else None
         if auto:
             faults.append(("version", ("auto", auto)))
+        if not q.legacy:
+            for fn in q.files:
+                sh = shadowed_variant(q, fn, mods, R)
+                if sh is not None:
+                    faults.append(("shadowed", (fn, sh)))
         for fault in faults:
-            run_one(ctx, case, q, good_args, fault, expect_fail=True)
+            run_one(ctx, case, q if fault[0] != "shadowed" else fault[1][1], good_args,
+                    fault if fault[0] != "shadowed" else ("shadowed", fault[1][0]), expect_fail=True)
         if perm == perms[0]:
             # one file already shows the new version (edited by hand, or left over from an interrupted run): whatever
             # --dry says about it, the real run has to agree
@@ -118,6 +124,31 @@ def auto_rejected_args(R, q, tdy):
     return None
 
 
+def shadowed_variant(q, fn, mods, R):
+    """The project with one more pattern for `fn`, listed last, whose every match lies inside the occurrence of an
+    earlier pattern of that file (a bare `{version}` next to `rev {version};`): it can never be found
+    ("Possible greedy pattern"), so the update has to fail - before anything is written."""
+    if fn == q.cfg_name:
+        return None
+    mine = [pl for pl in q.plants if pl.file == fn]
+    raws = {pl.raw for pl in mine}
+    cand = [pl for pl in mine if pl.kind == "version" and pl.raw != "{version}" and "{version}" in pl.raw]
+    if not cand or "{version}" in raws:
+        return None
+    sh = projects.with_extra_pattern(q, fn, "{version}", R)
+    if sh is None:
+        return None
+    try:
+        rx = mods["v2patterns"].compile_pattern(q.vp, "{version}").regexp
+    except Exception:
+        return None
+    text = q.files[fn]
+    for m in rx.finditer(text):
+        if m.group(0) and not any(pl.start <= m.end() and m.start() <= pl.end for pl in mine):
+            return None     # a free match exists somewhere: not a fault
+    return sh
+
+
 def run_one(ctx, case, q, good_args, fault, expect_fail):
     files = q.encoded()
     args = list(good_args)
@@ -138,6 +169,8 @@ def run_one(ctx, case, q, good_args, fault, expect_fail):
         elif kind == "file-removed":
             del files[what]
             pos = q.write_order.index(what)
+        elif kind == "shadowed":
+            pos = q.write_order.index(what)     # the config of q already lists the shadowed pattern
         elif kind == "already-new":
             upd = updated_files(q, good_args)
             if upd is None or upd.get(what) == files[what]:
